@@ -22,10 +22,10 @@ LEVEL_TEXT = ('every reply string of the alphabet is fed to the real trash-resto
 LEVEL_NOTE = 'trusted: R5 (reference grammar); tokens that only Python int() accepts (" 1", "+1") are don\'t-care; exit status of valid duplicate selections is don\'t-care'
 RULE = ('(a) replies: all strings of length 0..3 (thorough 0..4) over {0,1,2,3,9,-,",",space,+,a} plus {99999999999, 0-99999999999, 3-1, 1-2-3, '
         'arabic-indic 3, 0,0, 1-2,2} x list length {1,4} x sort {date,path}; (b) subsets (<=3) of {/a/foo,/a/foobar,/a/foo/x,/a,/b/foo,/foo,/a/foobar/y,/a/foo-bar/z/w,/a/fo%6F/q (a literal percent escape)} x '
-        'scope {/a/foo,/a/fo,/a,/,/a/foo/,foo,.,..,none, none with the cwd entered through a symlink and $PWD saying so}; (c) one location trashed twice + another entry x 7 replies x --overwrite on/off x sort; non-trivial = listing printed and reply read; distinct = (R5 class, list length, outcome) and '
+        'scope {/a/foo,/a/fo,/a,/,/a/foo/,foo,.,..,none, none with the cwd entered through a symlink and $PWD saying so}; (d) two entries under missing prefix-sibling parents, both chosen; (c) one location trashed twice + another entry x 7 replies x --overwrite on/off x sort; non-trivial = listing printed and reply read; distinct = (R5 class, list length, outcome) and '
         '(scope, subset size, outcome)')
 ALPHA = ['0', '1', '2', '3', '9', '-', ',', ' ', '+', 'a']
-EXTRA = ['-3-1', '-1-0', '0,-2-0', '-0', '1--2', '99999999999', '0-99999999999', '3-1', '1-2-3', '٣', '0,0', '1-2,2', '0-3', '3,2,1,0', '0-0']
+EXTRA = ['0-1,1-99', '2,2-9', '-3-1', '-1-0', '0,-2-0', '-0', '1--2', '99999999999', '0-99999999999', '3-1', '1-2-3', '٣', '0,0', '1-2,2', '0-3', '3,2,1,0', '0-0']
 LOCS = ['/a/foo', '/a/foobar', '/a/foo/x', '/a', '/b/foo', '/foo', '/a/foobar/y', '/a/foo-bar/z/w', '/a/fo%6F/q']
 SCOPES = ['/a/foo', '/a/fo', '/a', '/', '/a/foo/', 'foo', '.', '..', 'none', 'pwd-link']
 TD = scen.HOME_TRASH
@@ -53,6 +53,11 @@ def cases(tier):
             for sub in itertools.combinations(LOCS, k):
                 for sc in SCOPES:
                     out.append({'part': 'b', 'locs': list(sub), 'scope': sc, 'sort': so})
+    # (d) two entries whose parents are prefix-siblings (/a/foobar, /a/foo) and no longer exist: both chosen, in both orders
+    for so in ('date', 'path', 'none'):
+        for rp in ('0-1', '1,0', '0,1'):
+            for first in ('longer-first', 'shorter-first'):
+                out.append({'part': 'd', 'reply': rp, 'sort': so, 'order': first})
     for so in ('date', 'path', 'none'):
         for ow in (0, 1):
             for rp in ('0-1', '1,0', '0,1', '0', '1', '0-2', '2,0'):
@@ -185,8 +190,27 @@ def run_c(c):
     return {'verdict': 'ok', 'klass': 'same-location:second-version-refused', 'nontrivial': nt, 'detail': detail}
 
 
+def run_d(c):
+    W = scen.base_world(cwd='/')
+    d1, d2 = ('2024-01-01T00:00:00', '2024-01-02T00:00:00') if c['order'] == 'longer-first' else ('2024-01-02T00:00:00', '2024-01-01T00:00:00')
+    ents = [('x', '/gone/a/foobar/x', d1), ('y', '/gone/a/foo/y', d2)]
+    for nm, loc, d in ents:
+        scen.add_trashed(W, TD, nm, loc, d, payload='file', tag=nm)
+    with cell.Sandbox(W.spec()) as sb:
+        before = sb.snapshot()
+        r = sb.run(['trash-restore', '--sort', c['sort'], '/'], cwd='/', stdin=c['reply'] + '\n')
+        after = sb.snapshot()
+    bad = [nm for nm, loc, d in ents if not (scen.entry_state(before, after, TD, nm) == 'purged' and world.same_entry(before, TD + '/files/' + nm, after, loc))]
+    detail = {'reply': c['reply'], 'sort': c['sort'], 'exit': r.exit, 'err': r.err[-300:], 'not-restored': bad}
+    nt = 'prefix-siblings|%s|%s|%s' % (c['reply'], c['sort'], c['order'])
+    if bad or r.exit != 0:
+        return {'verdict': 'viol', 'sig': 'C13|restored-set-differs-from-chosen-indices|missing-prefix-sibling-parents', 'klass': 'restored-set-differs-from-chosen-indices',
+                'nontrivial': nt, 'detail': detail}
+    return {'verdict': 'ok', 'klass': 'prefix-siblings:both-restored', 'nontrivial': nt, 'detail': detail}
+
+
 def run_case(c):
-    return run_a(c) if c['part'] == 'a' else (run_b(c) if c['part'] == 'b' else run_c(c))
+    return {'a': run_a, 'b': run_b, 'c': run_c, 'd': run_d}[c['part']](c)
 
 
 def main(tier, seed):
